@@ -1,5 +1,6 @@
 (* Extraction of the executable model and specification of C15 (ExtrOcamlBasic only). *)
-From MptV Require Import Base.Mem C15.RefcountModel C15.RefcountSpec C15.ChainModel C15.ChainSpec.
+From MptV Require Import Base.Mem C15.RefcountModel C15.RefcountSpec C15.ChainModel C15.ChainSpec C15.ReplyModel C15.ReplySpec.
 Require Import ExtrOcamlBasic.
 Extraction "c15_model.ml" mrun srun init sinit leaked sleaked crun scrun
-  nrun csrun ninit csinit nleaked csleaked.
+  nrun csrun ninit csinit nleaked csleaked
+  prun psrun pinit psinit pleaked psleaked.
